@@ -156,6 +156,13 @@ def run(cfg, ctx):
     ctx.prove("step.inv.H", H1, pre=pre, assume=A, hw=hw, invariant=True)
     for i in range(nr):
         ctx.prove(f"read{i}.data_equals_ideal_memory", hw.sig(prod.r[i].data) == hw.sig(prod.ir[i].data), pre=pre, assume=A, hw=hw)
+    if any(r["verdict"] == "violated" for r in ctx.records):
+        # an invariant obligation failed: look for an actual input sequence from reset on which a read port differs from the ideal memory
+        mismatch = z3.Or(*[hw.sig(prod.r[i].data) != hw.sig(prod.ir[i].data) for i in range(nr)])
+        ctx.bmc("from_reset.read_data_equals_ideal_memory" + ("[granularity]" if cfg["gran"] else ""), hw, mismatch, assume=Aall, k=6)
+        for r in ctx.records:
+            if r["verdict"] == "violated" and cfg["gran"] and not r["name"].endswith("[granularity]"):
+                r["name"] += "[granularity]"
     ctx.cover("R_and_assumptions", z3.And(*pre, Aall), hw=hw)
     if nw and nw <= depth:
         ctx.cover("all_ports_active", z3.And(*pre, Aall, *[e != 0 for e in wen], *[hw.b(p.en) for p in prod.r]), hw=hw)
